@@ -825,9 +825,56 @@ def gen_env(src):
         f['params'] = [('self', '&Self')] + [p for p in f['params'] if p[0] != 'self']
         d, a = c.pure_fn(f, lean, extra_params=[])
         out.append(d.replace(f'def {lean} ', f'def {lean} ', 1) + '\n')
+    out.append(gen_env_mutators(s, c))
     return HEADER % ('SrcEnv', 'environment.rs (`impl Environment for StaticEnvironment`, `get_env_key`)',
                      'SlacProps/C19Source.lean proves that the observations of SlacModel/Env.lean are these functions.',
                      'SlacModel.Env', 'SrcEnv') + '\n'.join(out) + '\nend\nend Slac.Generated.SrcEnv\n'
+
+def gen_env_mutators(s, c):
+    """`impl StaticEnvironment`: the `&mut self` methods.  Each body must be ONE HashMap operation on one of the two maps (or a loop of
+       `self.add_function`); the method becomes a function returning the new environment (and the operation's result)."""
+    out = []
+    MAP = {'variables': ('vars', 'value'), 'functions': ('fns', 'func')}
+    def field_of(e):
+        if e[0] == 'field' and e[1] == ('path', ['self']) and e[2] in MAP: return e[2]
+        raise Unrecognised('not a map of self')
+    def one_stmt(f):
+        b = f['body']
+        if b[0] != 'block': raise Unrecognised('body')
+        items = list(b[1]) + ([('expr', b[2])] if b[2] is not None else [])
+        if len(items) != 1 or items[0][0] != 'expr': raise Unrecognised(f'{f["name"]}: more than one statement')
+        return items[0][1], b[2] is not None
+    sig = {'add_variable': '(self : StaticEnv N) (name : Str) (value : Value N) : StaticEnv N', 'remove_variable': '(self : StaticEnv N) (name : Str) : StaticEnv N × Option (Value N)',
+           'clear_variables': '(self : StaticEnv N) : StaticEnv N', 'add_function': '(self : StaticEnv N) (func : Fn N) : StaticEnv N',
+           'add_functions': '(self : StaticEnv N) (functions : List (Fn N)) : StaticEnv N', 'remove_function': '(self : StaticEnv N) (name : Str) : StaticEnv N × Option (Fn N)',
+           'list_functions': '(self : StaticEnv N) : List (Fn N)'}
+    envs = {'add_variable': {'name': ('name', 'str'), 'value': ('value', 'value')}, 'remove_variable': {'name': ('name', 'str')}, 'clear_variables': {},
+            'add_function': {'func': ('func', 'func')}, 'add_functions': {'functions': ('functions', 'funcs')}, 'remove_function': {'name': ('name', 'str')}, 'list_functions': {}}
+    for name in ('add_variable', 'remove_variable', 'clear_variables', 'add_function', 'add_functions', 'remove_function', 'list_functions'):
+        f = find_fn(s, name, 'impl StaticEnvironment')
+        e, is_tail = one_stmt(f)
+        env = dict(envs[name]); env['self'] = ('self', 'senv')
+        if e[0] == 'mcall' and e[2] == 'insert' and len(e[4]) == 2:
+            fld = field_of(e[1]); lf, _ = MAP[fld]
+            k, _ = c.tx(e[4][0], env); v, _ = c.tx(e[4][1], env)
+            body = f'{{ self with {lf} := ins {c.paren(k)} {c.paren(v)} self.{lf} }}'
+        elif e[0] == 'mcall' and e[2] == 'remove' and len(e[4]) == 1 and is_tail:
+            fld = field_of(e[1]); lf, _ = MAP[fld]
+            k, _ = c.tx(e[4][0], env)
+            body = f'({{ self with {lf} := del {c.paren(k)} self.{lf} }}, alGet {c.paren(k)} self.{lf})'
+        elif e[0] == 'mcall' and e[2] == 'clear' and not e[4]:
+            fld = field_of(e[1]); lf, _ = MAP[fld]
+            body = f'{{ self with {lf} := [] }}'
+        elif e[0] == 'for' and e[1][0] == 'pbind' and c.strip_refs(e[2]) == ('path', ['functions']):
+            x = e[1][1]; st = e[3]
+            inner = list(st[1]) + ([('expr', st[2])] if st[2] is not None else [])
+            if len(inner) != 1 or inner[0][1] != ('mcall', ('path', ['self']), 'add_function', None, [('path', [x])]): raise Unrecognised('add_functions loop body')
+            body = f'functions.foldl (fun self {x} => add_function fold self {x}) self'
+        elif e == ('mcall', ('mcall', ('mcall', ('field', ('path', ['self']), 'functions'), 'values', None, []), 'cloned', None, []), 'collect', None, []):
+            body = 'self.fns.map (·.2)'
+        else: raise Unrecognised(f'{name}: body not recognised')
+        out.append(f'/-- `StaticEnvironment::{name}` -/\ndef {name} {sig[name]} :=\n  {body}\n')
+    return '\n'.join(out)
 
 def gen_order(src):
     s = open(os.path.join(src, 'value.rs')).read()
